@@ -22,6 +22,7 @@ MANIFEST = dict(
 SIZES = [0, 1, 2047, 2048, 2049, 16384, 65535, 65536, 65537, 100000, 200000, 1048576]
 CONF = '''
 server.feature-flags = ("server.h2proto" => "enable", "server.h2c" => "enable")
+cgi.assign = (".pl" => "/usr/bin/perl")
 server.max-keep-alive-idle = 30
 server.max-read-idle = 30
 server.max-write-idle = 30
@@ -49,6 +50,10 @@ def gen(ctx):
         "s2147483647 o1,100000,0 q s0 q",
         "o1,1048576,0 q w0,1048576 q w1,1048576 q",
         "w0,2000000 o1,100000,0 o3,100000,1 o5,65536,0 o7,2048,0 q w1,50000 w3,50000 q w5,1 q",
+        # windows made negative by a SETTINGS decrease, then legal WINDOW_UPDATEs: must resume and complete
+        "o1,100000,0 q s1000 q w1,100000 q w0,100000 q",
+        "o1,200000,0 o3,100000,0 q s0 q w1,1 q w1,300000 w3,300000 w0,1000000 q",
+        "s20000 o1,100000,0 o3,100000,0 o5,100000,0 o7,100000,0 q w1,100000 w3,100000 w5,100000 w7,100000 q w0,1000000 q",
     ]
     lines += ["fc " + f for f in fixed]
     n = 60 if ctx.quick else 600
@@ -113,6 +118,7 @@ def run_scenario(port, line, expect):
     qi = 0
     verdict = None
     prev = {}
+    batch = b""
     try:
         c.pump(0.3, until=lambda f: any(x[0] == 4 and not (x[1] & 1) for x in f))
         for ev in evs:
@@ -120,20 +126,24 @@ def run_scenario(port, line, expect):
             if k == "o":
                 sid, size, inc = args
                 extra = [("priority", "u=3, i")] if inc else []
-                c.request(sid, "GET", "/f%d.bin" % size, extra=extra)
+                batch += c.headers_frame(sid, [(":method", "GET"), (":scheme", "http"),
+                                               (":path", "/f%d.bin" % size), (":authority", "localhost")] + extra)
                 granted[sid] = client_init
                 opened[sid] = size
             elif k == "s":
-                c.send(e2e.h2_settings([(4, args[0])]))
+                batch += e2e.h2_settings([(4, args[0])])
                 if args[0] <= 0x7fffffff:
                     for sid in opened:
                         granted[sid] += args[0] - client_init
                     client_init = args[0]
             elif k == "w":
-                c.send(e2e.h2_window_update(args[0], args[1]))
+                batch += e2e.h2_window_update(args[0], args[1])
                 if args[0] in granted and 0 < args[1]:
                     granted[args[0]] += args[1]
             elif k == "q":
+                if batch:
+                    c.send(batch)       # one TCP write per step: the server parses the batch at once
+                    batch = b""
                 exp = expect[qi] if qi < len(expect) else None
                 qi += 1
 
@@ -176,6 +186,66 @@ def run_scenario(port, line, expect):
     return obs, verdict
 
 
+# ------------------------------------------------------------------ upload side
+UPLOADS = [(1, 1, 0), (40, 1, 255), (30, 100, 200), (20, 16000, 0), (12, 16000, 255), (300, 7, 249),
+           (5, 16384, 0), (60, 3000, 100), (200, 1, 0), (25, 8000, 255), (1200, 1, 255)]
+
+
+def run_upload(port, spec):
+    """window-respecting client uploads a body in nframes DATA frames (datalen data bytes + pad);
+    returns (stream credit received, connection credit received, deadlock?, echoed length)"""
+    nframes, datalen, pad = spec
+    c = e2e.H2Conn(port)
+    try:
+        c.pump(5.0, until=lambda f: any(x[0] == 4 and not (x[1] & 1) for x in f))
+        adv = 65535
+        for t, fl, sid, pl in c.frames:
+            if t == 4 and not fl & 1:
+                for k in range(0, len(pl), 6):
+                    if int.from_bytes(pl[k:k + 2], "big") == 4:
+                        adv = int.from_bytes(pl[k + 2:k + 6], "big")
+        conn_win = 65535 + sum(int.from_bytes(f[3], "big") for f in c.frames if f[0] == 8 and f[2] == 0)
+        c.send(c.headers_frame(1, [(":method", "POST"), (":scheme", "http"), (":path", "/echo.pl"),
+                                    (":authority", "localhost")], end_stream=False))
+        strm_win = adv
+        seen = len(c.frames)
+        scred = ccred = 0
+        dead = False
+
+        def absorb():
+            nonlocal seen, strm_win, conn_win, scred, ccred
+            for t, fl, sid, pl in c.frames[seen:]:
+                if t == 8:
+                    inc = int.from_bytes(pl, "big") & 0x7fffffff
+                    if sid == 0:
+                        conn_win += inc; ccred += inc
+                    elif sid == 1:
+                        strm_win += inc; scred += inc
+            seen = len(c.frames)
+        for i in range(nframes):
+            last = i == nframes - 1
+            payload = (bytes([pad]) + b"u" * datalen + b"\0" * pad) if pad else b"u" * datalen
+            need = len(payload)
+            absorb()
+            if strm_win < need or conn_win < need:
+                c.pump(4.0, until=lambda f: (absorb() or True) and strm_win >= need and conn_win >= need)
+                absorb()
+                if strm_win < need or conn_win < need:
+                    dead = True
+                    break
+            c.send(e2e.h2_frame(0, (1 if last else 0) | (8 if pad else 0), 1, payload))
+            strm_win -= need; conn_win -= need
+        if not dead:
+            c.pump(8.0, until=lambda f: any(x[0] == 0 and x[1] & 1 and x[2] == 1 for x in f))
+            c.pump(0.2)
+        absorb()
+        st = e2e.h2_collect(c.frames, c.hp).get(1, {"body": b""})
+        m = re.search(rb"len=(\d+)", st["body"])
+        return scred - 131072 if scred >= 131072 else scred, ccred, dead, int(m.group(1)) if m else -1
+    finally:
+        c.close()
+
+
 def canon_model(steps):
     return [{"streams": {} if s["goaway"] else {sid: v[0] for sid, v in s["streams"].items()},
              "goaway": s["goaway"], "rsts": [] if s["goaway"] else sorted(s["rsts"])} for s in steps]
@@ -194,22 +264,80 @@ def run(ctx):
         ctx.broken.append({"kind": "model-run", "names": ["h2"], "log": merr[-2000:]})
         return
     expects = [parse_model(o) for o in mo]
-    srv = e2e.Server(bd, CONF, modules=())
+    srv = e2e.Server(bd, CONF, modules=("mod_cgi",))
     for sz in SIZES:
         with open("%s/f%d.bin" % (srv.docroot, sz), "wb") as f:
             f.write(bytes((i * 7 + sz) & 0xff for i in range(min(sz, 4096))) * (sz // 4096 + 1) if sz else b"")
             f.truncate(sz)
+    with open(srv.docroot + "/echo.pl", "w") as f:
+        f.write("#!/usr/bin/perl\nbinmode(STDIN); my $n = 0; my $b; while (my $r = read(STDIN, $b, 65536)) { $n += $r; }\n"
+                "print \"Content-Type: text/plain\\r\\n\\r\\nlen=$n\\n\";\n")
+    srv_mods = True
     t0 = time.time()
     ndis = 0
+    ups = UPLOADS if ctx.quick else UPLOADS + [(ctx.rng.randint(1, 120), ctx.rng.choice([1, 50, 1000, 16000]),
+                                                 ctx.rng.choice([0, 1, 100, 255])) for _ in range(40)]
+    cred_lines = []
+    for nf, dl, pad in ups:
+        ln = dl + (1 + pad if pad else 0)
+        cred_lines.append("credit 0 " + " ".join([str(ln)] * nf))            # connection level: every frame
+        cred_lines.append("credit 0 " + " ".join([str(ln)] * (nf - 1) + ["0"]))  # stream level: none for END_STREAM
+    cm, rc2, merr2 = C.run_model("h2", cred_lines)
+    def safe(fn, *a):
+        try:
+            return fn(*a)
+        except OSError:
+            return None
     with srv:
         with ThreadPoolExecutor(6) as ex:
-            res = list(ex.map(lambda a: run_scenario(srv.port, a[0], a[1]), zip(lines, expects)))
+            res = list(ex.map(lambda a: safe(run_scenario, srv.port, a[0], a[1]), zip(lines, expects)))
+            upres = list(ex.map(lambda sp: safe(run_upload, srv.port, sp), ups))
         alive = srv.alive()
     rep = srv.sanitizer_report()
-    if rep or not alive:
-        ctx.violation("crash:h2-flow", "server crashed / sanitizer report during flow-control scenarios",
+    if rep or not alive or any(r is None for r in res + upres):
+        # the server died: replay the scenarios one by one on fresh servers to find the input
+        culprit = None
+        first = min([i for i, r in enumerate(res) if r is None] or [len(lines)])
+        for i in range(max(0, first - 12), min(len(lines), first + 1)):
+            s2 = e2e.Server(bd, CONF, modules=("mod_cgi",))
+            for sz in SIZES:
+                with open("%s/f%d.bin" % (s2.docroot, sz), "wb") as f:
+                    f.truncate(sz)
+            with s2:
+                safe(run_scenario, s2.port, lines[i], expects[i])
+                time.sleep(0.2)
+                dead = not s2.alive()
+            if dead or s2.sanitizer_report():
+                culprit = (lines[i], s2.sanitizer_report() or s2.logs())
+                break
+        ctx.violation("crash:h2-flow:" + ((culprit[1] or "")[:60] if culprit else "unknown"),
+                      "server crashed / sanitizer report during flow-control scenarios",
                       {"property": ctx.pid, "kind": "sanitizer-or-crash", "correspondence": "e2e-h2-flow",
-                       "stderr": (rep or srv.logs())[-4000:]}, found=True)
+                       "input": culprit[0] if culprit else None,
+                       "stderr": ((culprit[1] if culprit else rep) or srv.logs())[-4000:]}, found=culprit is not None)
+        return
+    for i, (sp, (scred, ccred, dead, echoed)) in enumerate(zip(ups, upres)):
+        ctx.evaluations += 1
+        ctx.keys["upload:%s:%s" % ("padded" if sp[2] else "plain", "big" if sp[1] > 2000 else "small")] += 1
+        want_c, want_s = int(cm[2 * i].split()[0]), int(cm[2 * i + 1].split()[0])
+        if dead:
+            ctx.violation("oracle:h2-upload:deadlock",
+                          "a client respecting the advertised windows cannot finish its upload (no WINDOW_UPDATE arrives)",
+                          {"property": ctx.pid, "kind": "property-oracle", "correspondence": "e2e-h2-upload",
+                           "input": "upload nframes=%d datalen=%d pad=%d" % sp, "impl_obs": [scred, ccred, echoed],
+                           "oracle_verdict": "upload deadlock"}, found=True)
+        elif echoed != sp[0] * sp[1]:
+            ctx.violation("oracle:h2-upload:body", "uploaded body length differs at the backend",
+                          {"property": ctx.pid, "kind": "property-oracle", "correspondence": "e2e-h2-upload",
+                           "input": "upload nframes=%d datalen=%d pad=%d" % sp, "impl_obs": [scred, ccred, echoed],
+                           "oracle_verdict": "backend saw %d bytes, client sent %d" % (echoed, sp[0] * sp[1])}, found=True)
+        elif (scred, ccred) != (want_s, want_c):
+            ndis += 1
+            ctx.violation("corr:h2-upload", "model/implementation correspondence e2e-h2-upload broken",
+                          {"property": ctx.pid, "kind": "correspondence", "correspondence": "e2e-h2-upload",
+                           "input": "upload nframes=%d datalen=%d pad=%d" % sp, "impl_obs": [scred, ccred],
+                           "model_obs": [want_s, want_c], "oracle_verdict": "upload completed"}, found=False)
+    ctx.sample({"stream": "e2e-h2-upload", "input": "upload nframes=%d datalen=%d pad=%d" % ups[1], "impl": list(upres[1])})
     for line, exp, (obs, verdict) in zip(lines, expects, res):
         ctx.evaluations += 1
         cm = canon_model(exp)
@@ -243,7 +371,7 @@ def replay_line(ctx, rep):
     line = rep["input"]
     mo, rc, merr = C.run_model("h2", [line])
     exp = parse_model(mo[0])
-    srv = e2e.Server(bd, CONF, modules=())
+    srv = e2e.Server(bd, CONF, modules=("mod_cgi",))
     for sz in SIZES:
         with open("%s/f%d.bin" % (srv.docroot, sz), "wb") as f:
             f.truncate(sz)
